@@ -205,6 +205,7 @@ def oracle_history(case):
     results = []  # [las, snapshot]
     pristine = deep_snapshot(lasio.LASFile())
     last_mut_step = {}
+    shared_dtypes = {}
     tmp = tempfile.mkdtemp(prefix="c10h-")
     kinds = set()
     try:
@@ -214,7 +215,18 @@ def oracle_history(case):
             if k == "read":
                 ti = op[1] % len(texts)
                 ch = op[2]
-                if ch == "stringio":
+                fkey = ti
+                if ch == "string-dtypes":
+                    # one options object reused for every read of this text: a read must leave it as it found it
+                    dt = shared_dtypes.setdefault(ti, {"DEPT": float, "NOSUCH": str, "GR": str})
+                    before = dict(dt)
+                    las = attempt(lasio.read, texts[ti], dtypes=dt)
+                    kinds.add("read-with-shared-dtypes-dict")
+                    if dt != before:
+                        out.fail("read-changed-callers-options", "step %d: the dtypes dict given to read() was %r, is now %r" % (step, before, dt))
+                        break
+                    fkey = ("dtypes", ti)  # its own "first reading" (text curves differ from the default reading)
+                elif ch == "stringio":
                     las = attempt(lasio.read, io.StringIO(texts[ti]))
                 elif ch == "string":
                     las = attempt(lasio.read, texts[ti])
@@ -234,21 +246,28 @@ def oracle_history(case):
                     break
                 c = canonical(las)
                 want = case["texts"][ti].get("expect_data")
-                if want is not None:
+                if want is not None and fkey == ti:
                     # state kept between reads (even between cases of one process) shows against a fixed expectation
                     got = [[float(x) for x in cv.data] if np.asarray(cv.data).dtype.kind == "f" else [str(x) for x in cv.data] for cv in las.curves]
                     if got != want:
                         out.fail("read-depends-on-earlier-reads|data", "step %d: data read as %r, expected %r after %r\n%s"
                                  % (step, got, want, case["ops"][:step], texts[ti]))
                         break
-                if ti in first:
-                    d = canon.diff(c, first[ti], names=("read#%d" % step, "first-read"))
+                wantc = case["texts"][ti].get("expect_curves")
+                if wantc is not None:
+                    gotc = [[cv.original_mnemonic, cv.unit] for cv in las.curves]
+                    if gotc != wantc:
+                        out.fail("read-depends-on-earlier-reads|curves", "step %d: curves read as %r, expected %r after %r\n%s"
+                                 % (step, gotc, wantc, case["ops"][:step], texts[ti]))
+                        break
+                if fkey in first:
+                    d = canon.diff(c, first[fkey], names=("read#%d" % step, "first-read"))
                     if d:
                         out.fail("reread-differs|%s" % d[0][0], "step %d: reading text %d again gave a different result after %r\n%s\n%s"
                                  % (step, ti, case["ops"][:step], canon.show(d), texts[ti]))
                         break
                 else:
-                    first[ti] = c
+                    first[fkey] = c
                 results.append([las, deep_snapshot(las)])
             elif k == "new":
                 las = lasio.LASFile()
@@ -308,7 +327,7 @@ def oracle_history(case):
 
 
 OP = st.one_of(
-    st.tuples(st.just("read"), st.integers(0, 2), st.sampled_from(["stringio", "string", "path", "Path"])),
+    st.tuples(st.just("read"), st.integers(0, 2), st.sampled_from(["stringio", "string", "path", "Path", "string-dtypes"])),
     st.tuples(st.just("read"), st.integers(0, 2), st.sampled_from(["path", "Path"]), st.booleans(),
               st.sampled_from(["utf-8", "utf-8-sig", "utf-16", "utf-8-sig+encoding=utf-8", "utf-16-le", "utf-8-sig+no-autodetect"])),
     st.tuples(st.just("read"), st.integers(0, 2), st.sampled_from(["path", "Path"]), st.just(True),
@@ -338,7 +357,19 @@ def history_cases(draw):
         decimal = lastext.simple_spec(cv, [["1", "2,5", "3,25"], ["2", "3,5", "4,75"]])
         comma["expect_data"] = [[1.0, 2.0], [2.5, 3.5], [3.0, 4.0]]
         decimal["expect_data"] = [[1.0, 2.0], [2.5, 3.5], [3.25, 4.75]]
-        texts = texts[:1] + draw(st.permutations([comma, decimal]))
+        pair = [comma, decimal]
+        if draw(st.booleans()):
+            # two files whose ~Curves lines contain '..' in different places (mnemonic ending in a period / ellipsis in the
+            # description): how one is parsed must not depend on the other having been read before
+            dotted = lastext.simple_spec([("DEPT", "M", "", "d"), ("Cond.", "MS/M", "", "conductivity")], [["1", "2"], ["2", "3"]])
+            for ln in dotted["sections"][2]["lines"]:
+                if ln.get("m") == "Cond.":
+                    ln["p"] = ["", "", " ", " ", " ", ""]  # `Cond..MS/M  : conductivity`
+            ellipsis = lastext.simple_spec([("DEPT", "M", "", "d"), ("GR", "GAPI", "45", "gamma ray etc..")], [["1", "2"], ["2", "3"]])
+            dotted["expect_curves"] = [["DEPT", "M"], ["COND.", "MS/M"]]  # default mnemonic_case='upper'
+            ellipsis["expect_curves"] = [["DEPT", "M"], ["GR", "GAPI"]]
+            pair = [dotted, ellipsis]
+        texts = texts[:1] + draw(st.permutations(pair))
         special = True
     ops = draw(st.lists(OP, min_size=4, max_size=14))
     if special:
